@@ -40,7 +40,9 @@ META = {
         "predicate (directly, through a local alias or a value-only helper; several correlated branches are allowed) and on "
         "every path of each side feed the matching docutils registries (manual: Text/label child + note_footnote; auto: "
         "auto=1 + note_autofootnote(_ref)); refname = names[0] = the unmodified label; stores precede the registry calls "
-        "that read them; helpers that receive the node are followed. "
+        "that read them; on manual paths the label node is added before anything that can append a child to the footnote "
+        "(note_explicit_target attaches docutils' duplicate-name system message, the body its paragraphs), because the "
+        "collector and docutils read children[0] as the label; helpers that receive the node are followed. "
         "(R3) The duplicate-definition path issues exactly one [ref.footnote] warning and returns before any construction, "
         "registration or rendering. "
         "(R4) The collector's move loop (in apply or one helper) is guarded by myst_footnote_sort only, gathers every entry "
@@ -56,7 +58,9 @@ META = {
         "compares labels verbatim as they are stored (no case/whitespace/character folding on either side), and "
         "everything it reads (registry entry, name) is stored before the footnote body is rendered, where a nested duplicate "
         "can occur. "
-        "(R7) Every myst_footnote_* setting a transform reads is written unconditionally during render from the same-named "
+        "(R7) The transforms take the footnote options from document.settings.myst_footnote_* only (attribute, getattr, "
+        "local alias or value helper with a literal/f-string name) - never from a build-wide configuration object such "
+        "as env.myst_config, which ignores front matter; every such setting is written unconditionally during render from the same-named "
         "MdParserConfig field, and each front end's parse builds the configuration it hands to create_md_parser from the "
         "document at hand, never from an attribute the parser object stores itself (a memo that outlives the document). "
         "(R8) Sort keys are total: one comparable kind on all returns, or every label the renderer can create converts with int(). "
@@ -667,11 +671,13 @@ SETTING_PREFIX = "myst_footnote_"
 
 
 def _setting_reads(fi: FunctionInfo) -> list[ast.Attribute]:
-    return [
-        n
-        for n in fi.local_nodes()
-        if isinstance(n, ast.Attribute) and isinstance(n.ctx, ast.Load) and n.attr.startswith(SETTING_PREFIX) and isinstance(n.value, ast.Attribute) and n.value.attr == "settings"
-    ]
+    out = []
+    for n in fi.local_nodes():
+        if isinstance(n, ast.Attribute) and isinstance(n.ctx, ast.Load) and n.attr.startswith(SETTING_PREFIX):
+            b_ = _deref(fi, n.value) if isinstance(n.value, ast.Name) and n.value.id not in fi.params else n.value
+            if isinstance(b_, ast.Attribute) and b_.attr == "settings":
+                out.append(n)
+    return out
 
 
 def _self_attr_read(e: ast.AST) -> str | None:
@@ -736,6 +742,23 @@ def r7_settings_plumbing(corpus: Corpus, rep: Report, tier: str):
             continue
         for n in _setting_reads(fi):
             reads.setdefault(n.attr, []).append((fi, n))
+        if fi.cls is None or fi.name != "apply":
+            continue
+        for n in fi.local_nodes():
+            direct = isinstance(n, ast.Attribute) and isinstance(n.ctx, ast.Load) and n.attr.startswith("footnote_") and not isinstance(parent(n), ast.Attribute)
+            if direct or (isinstance(n, ast.Call) and (dotted(n.func) == "getattr" or isinstance(n.func, ast.Name) or (isinstance(n.func, ast.Attribute) and _is_name(n.func.value, "self")))):
+                srcs = _resolve_setting(fi, n)
+                got = sorted({n_ for k_, n_, _x in srcs if k_ == "setting" and n_.startswith(SETTING_PREFIX)})
+                for name_ in got:
+                    reads.setdefault(name_, []).append((fi, n))
+                for k_, text_, x_ in srcs:
+                    if k_ == "foreign" and "footnote" in text_:
+                        rep.violation(
+                            "C11.R7",
+                            f"{fi.fq}|footnote option read from the document settings|{text_}",
+                            fi.module.site(n),
+                            f"{fi.qualname} takes the footnote option from `{text_}` on some path, a configuration object shared by the whole build, instead of document.settings.{got[0] if got else 'myst_footnote_*'} which the renderer writes per document: a front-matter footnote_sort/footnote_transition is ignored there",
+                        )
     cfgcls = corpus.cls("config.main:MdParserConfig")
     fields = {st.target.id for st in cfgcls.node.body if isinstance(st, ast.AnnAssign) and isinstance(st.target, ast.Name)}
     render = corpus.func(f"{BASE}:DocutilsRenderer.render")
@@ -1054,6 +1077,24 @@ def r2_predicate_and_registries(corpus: Corpus, rep: Report, tier: str):
         _expect(rep, dfn, ev, "note_target", edge, {1}, side, "note_explicit_target(footnote, ...)", "the name table entry is what docutils uses to skip taken numbers and to report clashes")
         _expect(rep, dfn, ev, "body", edge, {1}, side, "self.render_children(token)", "the footnote text must be rendered exactly once")
         _expect(rep, dfn, ev, "wrong_registry", edge, {0}, side, "footnote noted in a reference/other registry", "footnote definitions belong in footnotes/autofootnotes only")
+    # the collector (and docutils) read children[0] as the label: nothing that can add a child to the footnote
+    # - note_explicit_target attaches docutils' duplicate-name system message to it, the body its paragraphs -
+    # may run before the label is added
+    for kind_, text_ in (("note_target", "note_explicit_target(footnote, footnote)"), ("body", "self.render_children(token)")):
+        key = f"{dfn.fq}|manual|label is the first child: added before {text_}"
+        bad = None
+        for x in ev.nodes(kind_):
+            if any(l_ is x for l_ in ev.nodes("label_child")):
+                if not _precedes(ev, "label_child", x, kind_, x):
+                    bad = x
+                continue
+            got = ev.paths("label_child", ENTRY, ev.cfg.stmt_of(x), avoid=d_man.avoid)
+            if 0 in got:
+                bad = x
+        if bad is None:
+            rep.ok("C11.R2", key, dfn.module.site(ev.nodes(kind_)[0]) if ev.nodes(kind_) else dfn.site())
+        else:
+            rep.violation("C11.R2", key, dfn.module.site(bad), f"on manual paths `{text_}` runs before the label node is added: whatever it appends to the footnote (docutils' 'Duplicate ... target name' system message when the number is also a heading/target name, or the footnote text) becomes children[0], so CollectFootnotes sorts the definition by that text instead of its number and the footnote no longer starts with its label")
     cfg = get_cfg(dfn)
     for nt in ev.nodes("note_target"):
         key = f"{dfn.fq}|name stored before note_explicit_target"
@@ -1332,6 +1373,89 @@ def _setting_name(e: ast.expr) -> str | None:
     return None
 
 
+def _const_str(e: ast.expr, env: dict[str, ast.expr]) -> str | None:
+    """literal value of a string expression (constants, f-strings and ``+`` over parameters bound to constants)"""
+    if isinstance(e, ast.Constant) and isinstance(e.value, str):
+        return e.value
+    if isinstance(e, ast.Name) and e.id in env:
+        return _const_str(env[e.id], {})
+    if isinstance(e, ast.JoinedStr):
+        parts = []
+        for v in e.values:
+            if isinstance(v, ast.Constant):
+                parts.append(str(v.value))
+            elif isinstance(v, ast.FormattedValue) and v.format_spec is None and v.conversion == -1:
+                x = _const_str(v.value, env)
+                if x is None:
+                    return None
+                parts.append(x)
+            else:
+                return None
+        return "".join(parts)
+    if isinstance(e, ast.BinOp) and isinstance(e.op, ast.Add):
+        a, b = _const_str(e.left, env), _const_str(e.right, env)
+        return a + b if a is not None and b is not None else None
+    return None
+
+
+def _resolve_setting(fi: FunctionInfo, e: ast.expr, env: dict[str, ast.expr] | None = None, depth: int = 0):
+    """Where a boolean option value comes from: [("setting", name, node)] for ``<x>.settings.<name>`` (attribute or
+    getattr, also reached through local aliases and value helpers), [("foreign", text, node)] for a read of a
+    configuration object (``...myst_config.x`` / ``...config.x``); [] if ``e`` is neither."""
+    env = env or {}
+    for _ in range(6):
+        if isinstance(e, ast.UnaryOp) and isinstance(e.op, ast.Not):
+            e = e.operand
+        elif isinstance(e, ast.Call) and dotted(e.func) == "bool" and len(e.args) == 1:
+            e = e.args[0]
+        elif isinstance(e, ast.Name) and e.id not in env and e.id not in fi.params:
+            e2 = _deref(fi, e)
+            if e2 is e:
+                break
+            e = e2
+        else:
+            break
+    if isinstance(e, ast.Attribute):
+        base_ = e.value
+        if isinstance(base_, ast.Name) and base_.id not in fi.params:
+            base_ = _deref(fi, base_)
+        if isinstance(base_, ast.Attribute) and base_.attr == "settings":
+            return [("setting", e.attr, e)]
+        if isinstance(e.value, ast.Attribute) and e.value.attr in ("myst_config", "md_config", "config"):
+            return [("foreign", unparse(e), e)]
+        return []
+    if isinstance(e, ast.Call) and dotted(e.func) == "getattr" and len(e.args) >= 2:
+        obj = e.args[0]
+        obj = _deref(fi, obj) if isinstance(obj, ast.Name) and obj.id not in fi.params else obj
+        name = _const_str(e.args[1], env)
+        if isinstance(obj, ast.Attribute) and obj.attr == "settings":
+            if name is None:
+                raise Unsupported(f"{fi.module.site(e)}: setting name `{short(e.args[1], 40)}` is not a literal")
+            return [("setting", name, e)]
+        if isinstance(obj, ast.Attribute) and obj.attr in ("myst_config", "md_config", "config"):
+            return [("foreign", f"{unparse(obj)}.{name or short(e.args[1], 30)}", e)]
+        return []
+    if isinstance(e, ast.IfExp):
+        return _resolve_setting(fi, e.body, env, depth) + _resolve_setting(fi, e.orelse, env, depth)
+    if isinstance(e, ast.BoolOp):
+        out = []
+        for v in e.values:
+            out += _resolve_setting(fi, v, env, depth)
+        return out
+    if isinstance(e, ast.Call) and depth < 2 and (isinstance(e.func, ast.Name) or (isinstance(e.func, ast.Attribute) and _is_name(e.func.value, "self"))):
+        h = _resolve_helper(fi, e)
+        if h is None or h.is_lambda or h.fq == fi.fq:
+            return []
+        binding = _bind_args(h, e)
+        henv = {p_: (env.get(a.id, a) if isinstance(a, ast.Name) else a) for p_, a in binding.items()}
+        out = []
+        for n in h.local_nodes():
+            if isinstance(n, ast.Return) and n.value is not None:
+                out += _resolve_setting(h, n.value, henv, depth + 1)
+        return out
+    return []
+
+
 def _judge_guards(fi: FunctionInfo, stmt, want: dict[str, bool]) -> tuple[list[str], list[str]]:
     """Split the dominating branch facts of ``stmt`` into problems and a description.
     ``want``: setting name -> required polarity.  Facts over locals only are tolerated;
@@ -1346,6 +1470,19 @@ def _judge_guards(fi: FunctionInfo, stmt, want: dict[str, bool]) -> tuple[list[s
         sname = _setting_name(t)
         if sname is None and isinstance(t, ast.Call) and dotted(t.func) == "bool" and len(t.args) == 1:
             sname = _setting_name(t.args[0])
+        if sname is None:
+            srcs = _resolve_setting(fi, t)
+            names = {n_ for k_, n_, _x in srcs if k_ == "setting"}
+            foreign = [n_ for k_, n_, _x in srcs if k_ == "foreign"]
+            if foreign:
+                problems.append(f"is decided by `{foreign[0]}` on some path instead of the per-document value the renderer stores in document.settings (front matter is ignored there)")
+            if len(names) == 1:
+                sname = names.pop()
+            elif len(names) > 1:
+                raise Unsupported(f"{fi.module.site(t)}: guard `{short(t, 60)}` mixes several settings")
+            elif foreign:
+                desc.append(("" if pol else "not ") + foreign[0])
+                continue
         if sname is not None:
             seen[sname] = pol
             if sname not in want:
@@ -1661,7 +1798,7 @@ def r4_collector(corpus: Corpus, rep: Report, tier: str):
     # (f) nothing happens with sorting off: every Return before the loop is guarded by `not sort` only
     for r in [n for n in fi.local_nodes() if isinstance(n, ast.Return)]:
         g = cfg.guards(r)
-        names = [(_setting_name(t), pol) for t, pol in g]
+        names = [(_setting_name(t) or next((n_ for k_, n_, _x in _resolve_setting(fi, t) if k_ == "setting"), None), pol) for t, pol in g]
         key = f"{fi.fq}|early return|{' and '.join(('' if p else 'not ') + (_setting_name(t) or short(t, 40)) for t, p in g) or 'unconditional'}"
         if any(n_ is not None and n_ != "myst_footnote_sort" for n_, _ in names):
             rep.violation("C11.R4", key, fi.module.site(r), "the collector gives up depending on a setting other than myst_footnote_sort")
@@ -2579,6 +2716,25 @@ def mutants(corpus: Corpus):
         lines = src.splitlines(keepends=True)
         at = dfn.node.lineno - 1
         out.append(Mutant("c11-duplicate-helper-consults-nameids", "C11.R6", base.rel, "".join(lines[:at]) + helper + "".join(lines[at:]), expect="against document.nameids"))
+    # the name is registered (docutils may attach a system message to the footnote) before the label exists (class of seed5 out-c11/1)
+    s_names = find_stmt(dfn, lambda n: isinstance(n, ast.Expr) and "['names'].append" in unparse(n))
+    s_tgt = find_stmt(dfn, lambda n: isinstance(n, ast.Expr) and "note_explicit_target" in unparse(n))
+    if s_names is not None and s_tgt is not None and s_names.lineno < s_tgt.lineno:
+        ni = " " * s_names.col_offset
+        src = splice(base.src, s_tgt, "pass")  # later in the file first
+        src = splice(src, s_names, _seg(base, s_names) + f"\n{ni}" + _seg(base, s_tgt))
+        out.append(Mutant("c11-name-registered-before-label-exists", "C11.R2", base.rel, src, expect="label is the first child"))
+    else:
+        out.append(("c11-name-registered-before-label-exists", "names store / note_explicit_target not found in this order"))
+    s_lab = find_stmt(dfn, lambda n: isinstance(n, ast.AugAssign) and "nodes.label" in unparse(n.value))
+    s_body = find_stmt(dfn, lambda n: isinstance(n, ast.With) and "render_children" in unparse(n))
+    if s_lab is not None and s_body is not None and s_lab.lineno < s_body.lineno:
+        bi = " " * s_body.col_offset
+        cond = next((a for a in ancestors(s_lab) if isinstance(a, ast.If)), None)
+        cond_txt = _seg(base, cond.test) if cond is not None else "True"
+        src = splice(base.src, s_body, _seg(base, s_body) + f"\n{bi}if {cond_txt}:\n{bi}    footnote.insert(0, {_seg(base, s_lab.value)})")
+        src = splice(src, s_lab, "pass")
+        out.append(Mutant("c11-label-inserted-after-body", "C11.R2", base.rel, src, expect="manual|"))
     # ---- R3
     dup = find_node(dfn, lambda n: isinstance(n, ast.If) and any(isinstance(x, ast.Compare) and isinstance(x.ops[0], (ast.In, ast.NotIn)) for x in ast.walk(n.test)))
     if dup is not None:
@@ -2712,6 +2868,20 @@ def mutants(corpus: Corpus):
         fi_ = " " * first.col_offset
         val = _seg(pmod, first.value)
         add(mid, "C11.R7", pmod, first, f"{cname} = getattr(self, \"_myst_config\", None)\n{fi_}if {cname} is None:\n{fi_}    {cname} = self._myst_config = {val}", "configuration is built from this document")
+    # the transforms take the footnote options from the build-wide configuration (class of seed5 out-c11/3)
+    g_sort = find_node(cf, lambda n: isinstance(n, ast.Attribute) and n.attr == "myst_footnote_sort" and isinstance(n.value, ast.Attribute) and n.value.attr == "settings")
+    if g_sort is not None:
+        add("c11-collector-reads-build-wide-config", "C11.R7", tm, g_sort, f"{unparse(g_sort.value)}.env.myst_config.footnote_sort", "read from the document settings")
+        helper_src = splice(tm.src, g_sort, "_footnote_option(self.document, \"sort\")") + (
+            "\n\ndef _footnote_option(document, name):\n"
+            "    env = getattr(document.settings, \"env\", None)\n"
+            "    if env is not None:\n"
+            "        return getattr(env.myst_config, f\"footnote_{name}\")\n"
+            "    return getattr(document.settings, f\"myst_footnote_{name}\")\n"
+        )
+        out.append(Mutant("c11-collector-option-helper-prefers-env-config", "C11.R7", tm.rel, helper_src, expect="read from the document settings"))
+    else:
+        out.append(("c11-collector-reads-build-wide-config", "settings.myst_footnote_sort read in CollectFootnotes.apply not found"))
     # ---- R7
     fin = base.func("DocutilsRenderer._render_finalise") if "DocutilsRenderer._render_finalise" in base.functions else None
     if fin is not None:
